@@ -40,6 +40,9 @@ type HSPath struct {
 	PreBuffered int  `json:"prebuffered,omitempty"`
 	ReadBuf     int  `json:"rbuf,omitempty"`
 	HijackFails bool `json:"hijack_fails,omitempty"`
+	// ServerDeadlines (upgrade): the HTTP server hands the connection over with
+	// its own read (and write) deadline for the request still armed.
+	ServerDeadlines bool `json:"server_deadlines,omitempty"`
 	// Stall (fake-clock leg): stage at which the peer goes silent.
 	Stall string `json:"stall,omitempty"`
 	// OnlyK / OnlyKind restrict the fault enumeration (replay).
@@ -61,6 +64,7 @@ func genHSPath(t *rapid.T) HSPath {
 		c.PreBuffered = rapid.SampledFrom([]int{0, 0, 5, 40}).Draw(t, "prebuf")
 		c.ReadBuf = rapid.SampledFrom([]int{0, 64, 1024}).Draw(t, "rbuf")
 		c.HijackFails = rapid.IntRange(0, 9).Draw(t, "hijackfails") == 0
+		c.ServerDeadlines = rapid.Bool().Draw(t, "server_deadlines")
 		c.Negative = ""
 	}
 	c.OnlyK = -1
@@ -317,6 +321,14 @@ func checkC16Upgrade(c HSPath, o *Obs) error {
 		if c.PreBuffered > 0 {
 			br.Peek(1)
 		}
+		if c.ServerDeadlines && c.HandshakeTimeoutMs == 0 {
+			// (with a HandshakeTimeout the library arms and clears its own write
+			// deadline only; what becomes of the server's read deadline then is
+			// not stated and not judged)
+			// what a server with ReadTimeout / WriteTimeout leaves on a connection
+			// whose Hijacker does not clear it (not counted as write-side operations)
+			tr.SetReadDeadline(time.Now().Add(time.Hour))
+		}
 		tr.SetWriteFault(fault)
 		w := &fakeRW{conn: tr, brw: bufio.NewReadWriter(br, bufio.NewWriterSize(tr, 4096))}
 		if c.HijackFails {
@@ -358,7 +370,7 @@ func checkC16Upgrade(c HSPath, o *Obs) error {
 		return errors.New("Upgrade succeeded but closed the connection")
 	}
 	if final(tr) {
-		return fmt.Errorf("Upgrade (HandshakeTimeout %dms) returned a connection with a handshake deadline still armed", c.HandshakeTimeoutMs)
+		return fmt.Errorf("Upgrade (HandshakeTimeout %dms, deadlines armed by the HTTP server at hijack time: %v) returned a connection with a deadline of the handshake phase still armed", c.HandshakeTimeoutMs, c.ServerDeadlines)
 	}
 	n := tr.WriteOps()
 	for k := 0; k < n; k++ {
